@@ -457,6 +457,22 @@ class ValueWrapper(Term):
             return "null"
         return str(value)
 
+    @builder
+    def replace_table(self, current_table: Optional["Table"], new_table: Optional["Table"]) -> "ValueWrapper":
+        """
+        Replaces all occurrences of the specified table with the new table in a wrapped term. Useful when reusing
+        fields across queries.
+
+        :param current_table:
+            The table to be replaced.
+        :param new_table:
+            The table to replace with.
+        :return:
+            A copy of the value with the tables replaced.
+        """
+        if isinstance(self.value, Term):
+            self.value = self.value.replace_table(current_table, new_table)
+
     def _get_param_data(self, parameter: Parameter, **kwargs) -> Tuple[str, str]:
         param_sql = parameter.get_sql(**kwargs)
         param_key = parameter.get_param_key(placeholder=param_sql)
